@@ -69,6 +69,26 @@ M = {
  "C18-2": ("C18", "save() writes np.ascontiguousarray(data/grad)", "0-d tensors come back with shape (1,)"),
  "C18-3": ("C18", "load() skips backward when the saved gradient is empty", "empty tensor with an (empty) gradient comes back with grad None"),
 }
+DETECTED_BY = {
+ "C01-1": ["C11"], "C01-2": ["C01", "C02"], "C01-3": ["C01", "C02"],
+ "C02-1": ["C02"], "C02-2": ["C02"], "C02-3": ["C11"], "C02-4": ["C02"], "C02-5": ["C02", "C01"],
+ "C03-1": ["C03"], "C03-2": ["C11"], "C03-3": ["C03"], "C03-4": ["C03"],
+ "C04-1": ["C04", "C05"], "C04-2": ["C04", "C13"], "C04-3": ["C04"],
+ "C05-1": ["C05"], "C05-2": ["C13", "C05"], "C05-3": ["C05"], "C05-4": ["C05", "C02"],
+ "C06-1": ["C06"], "C06-2": ["C12", "C06"], "C06-3": [], "C06-4": ["C06"],
+ "C07-1": ["C07"], "C07-2": ["C07"], "C07-3": ["C07"], "C07-4": ["C07"],
+ "C08-1": ["C08"], "C08-2": ["C08"], "C08-3": ["C08"],
+ "C09-1": ["C09"], "C09-2": [], "C09-3": ["C08", "C09"],
+ "C10-1": ["C10"], "C10-2": ["C10"], "C10-3": ["C17", "C10"], "C10-4": ["C02", "C10"],
+ "C11-1": ["C11"], "C11-2": ["C11"], "C11-3": ["C11"],
+ "C12-1": ["C12"], "C12-2": ["C12"], "C12-3": ["C12"], "C12-4": ["C05", "C12"],
+ "C13-1": ["C08", "C13"], "C13-2": ["C13"], "C13-3": ["C13"], "C13-4": ["C13"],
+ "C14-1": ["C14"], "C14-2": ["C14"], "C14-3": ["C14"], "C14-4": ["C14"],
+ "C15-1": ["C15"], "C15-2": ["C15"], "C15-3": ["C15"],
+ "C16-1": ["C16"], "C16-2": ["C16"], "C16-3": ["C16"], "C16-4": ["C16"],
+ "C17-1": ["C17"], "C17-2": ["C17"], "C17-3": ["C17"],
+ "C18-1": ["C18"], "C18-2": ["C18"], "C18-3": ["C18"],
+}
 for k, (prop, what, needs) in M.items():
     d = os.path.join(HERE, "seeded", k)
     meta = {"id": k, "breaks_property": prop, "change": what, "needs_to_manifest": needs,
@@ -78,6 +98,8 @@ for k, (prop, what, needs) in M.items():
     if os.path.exists(os.path.join(d, "meta.json")):
         old = json.load(open(os.path.join(d, "meta.json")))
     old.update(meta)
+    old["detected_by_quick_tier_of"] = DETECTED_BY.get(k, [])
+    old["how_checked"] = "tools/run_seeded.sh <id> <PROP>: scratch worktree of /repo HEAD + patch.diff, check run with VERIF_REPO_SRC from a snapshot of /verif; worktree removed afterwards"
     json.dump(old, open(os.path.join(d, "meta.json"), "w"), indent=1)
 NOTES = {
  "C09-2": "NEUTRALISED on the repaired tree: fix 978e547 (shape setter calls null_grad() before building placeholders) makes the asserted-None gradient always None, so this change no longer alters behaviour; the demo passes with the patch applied.  Kept for the record (it was detected by C09/C07 before the fix).",
